@@ -407,3 +407,57 @@ pub fn conc(path: &str, procs: usize, seed: u64, rounds: usize, force: &str) -> 
     f.flush().unwrap();
     (n, failures)
 }
+
+// ---------------------------------------------------------------------------
+// C06/C07 I->S: random call histories on real byte-search iterators (long
+// haystacks, sparse and dense matches); validated by spec/Trace_MemchrIter.tla.
+
+pub fn record_iter(path: &str, count: usize, seed: u64, force: &str) -> u64 {
+    memchr::verif::set_force(force);
+    let mut f = std::io::BufWriter::new(std::fs::File::create(path).unwrap());
+    let mut r = Rng::new(seed ^ 0x17E2);
+    let mut n = 0u64;
+    for _ in 0..count {
+        let nn = 1 + r.below(3);
+        let mut needles: Vec<u8> = (0..nn).map(|_| r.byte()).collect();
+        if nn == 3 && r.chance(1, 4) {
+            needles[1] = needles[0];
+        }
+        let len = pick_len(&mut r, 400);
+        let density = [0usize, 1, 3, 10, 50, 100][r.below(6)];
+        let filler = needles[0] ^ 1 ^ if needles.contains(&(needles[0] ^ 1)) { 0x80 } else { 0 };
+        let filler = if needles.contains(&filler) { needles[0].wrapping_add(101) } else { filler };
+        let mut p = Placed::new(len, r.below(64), 0);
+        for b in p.slice_mut().iter_mut() {
+            *b = if r.below(100) < density { needles[r.below(nn)] } else { filler };
+        }
+        p.fill_slack(needles[0]);
+        let h = p.slice();
+        for sr in all_searchers(&needles, false) {
+            let mut it = sr.iter(h);
+            let mut ops = Vec::new();
+            let mut nones = 0;
+            let mut steps = 0;
+            while nones < 3 && steps < 60 {
+                steps += 1;
+                let c = r.below(10);
+                if c == 0 {
+                    let cnt = it.clone_box().count_rest();
+                    ops.push(json!({"op": "count", "ret": cnt, "lo": 0, "up": -1}));
+                    continue;
+                }
+                let back = c % 2 == 0;
+                let ret = opt_to_i(if back { it.next_back() } else { it.next() });
+                if ret < 0 {
+                    nones += 1;
+                }
+                let (lo, up) = it.size_hint();
+                ops.push(json!({"op": if back { "next_back" } else { "next" }, "ret": ret, "lo": lo, "up": up.map_or(-1, |u| u as i64)}));
+            }
+            writeln!(f, "{}", json!({"k": "iter", "e": sr.backend(), "n": needles, "h": h, "ops": ops})).unwrap();
+            n += 1;
+        }
+    }
+    f.flush().unwrap();
+    n
+}
